@@ -37,37 +37,40 @@ MAXS = 16                     # log rows (statements) per kernel
 OVER = XW - 2                 # index value reported for the overflow slot
 CHUNK = 400                   # kernels per translation unit
 
-# bounded instances; every profile is model-checked and exported completely
+# bounded instances; every profile is model-checked and exported completely.  Inc* = context sets per include file.
+S_CU_OMP = '{"cuda","cpu_openmp"}'
+S_CL_SER = '{"opencl","cpu_serial"}'
 PROFILES = {
     "quick": [
-        dict(tag="full4", MaxLen=4, Kinds='{"plain"}',
-             CtxSets='{{"cuda"}, {"cpu_serial","opencl"}, {"cpu_openmp"}}',
-             IncSets='{{"cuda","cpu_openmp"}}', IncFiles='{"fa","fb","fc"}', parts=6),
+        dict(tag="full4", MaxLen=4, Kinds='{"plain"}', CtxSets='{{"cuda"}, {"cpu_serial","opencl"}, {"cpu_openmp"}}',
+             IncFa='{' + S_CU_OMP + '}', IncFb='{' + S_CU_OMP + ',' + S_CL_SER + '}', IncFc='{' + S_CL_SER + '}', parts=8),
         dict(tag="qual3", MaxLen=3, Kinds='{"plain","mem","fun"}', CtxSets='{{"opencl","cuda"}}',
-             IncSets='{' + ALL4 + '}', IncFiles='{"fc"}', parts=1),
-        dict(tag="core6", MaxLen=6, Kinds='{"plain"}', CtxSets='{{"cuda","cpu_openmp"}}', IncSets='{}', IncFiles='{}', parts=2),
+             IncFa='{}', IncFb='{}', IncFc='{' + ALL4 + '}', parts=1),
+        dict(tag="core6", MaxLen=6, Kinds='{"plain"}', CtxSets='{{"cuda","cpu_openmp"}}', IncFa='{}', IncFb='{}', IncFc='{}', parts=2),
     ],
     "thorough": [
-        dict(tag="full5", MaxLen=5, Kinds='{"plain"}',
-             CtxSets='{{"cuda"}, {"cpu_serial","opencl"}, {"cpu_openmp"}, {}}',
-             IncSets='{{"cuda","cpu_serial"}, {"opencl","cpu_openmp"}}', IncFiles='{"fa","fb","fc"}', parts=16),
+        dict(tag="full5", MaxLen=5, Kinds='{"plain"}', CtxSets='{{"cuda"}, {"cpu_serial","opencl"}, {"cpu_openmp"}}',
+             IncFa='{' + S_CU_OMP + '}', IncFb='{' + S_CU_OMP + ',' + S_CL_SER + '}', IncFc='{' + ALL4 + '}', parts=12),
+        dict(tag="wide4", MaxLen=4, Kinds='{"plain"}', CtxSets='{{"cuda"}, {"cpu_serial","opencl"}, {"cpu_openmp"}, {}}',
+             IncFa='{' + S_CU_OMP + ',' + S_CL_SER + '}', IncFb='{' + S_CU_OMP + ',' + S_CL_SER + '}',
+             IncFc='{' + S_CU_OMP + ',' + S_CL_SER + '}', parts=6),
         dict(tag="core6", MaxLen=6, Kinds='{"plain"}', CtxSets='{{"cuda"}, {"cpu_serial","opencl"}}',
-             IncSets='{{"opencl","cpu_openmp"}}', IncFiles='{"fa","fb"}', parts=8),
+             IncFa='{{"opencl","cpu_openmp"}}', IncFb='{{"cuda","cpu_serial"}}', IncFc='{}', parts=10),
         dict(tag="qual4", MaxLen=4, Kinds='{"plain","mem","fun"}', CtxSets='{{"opencl","cuda"}}',
-             IncSets='{' + ALL4 + '}', IncFiles='{"fc"}', parts=2),
+             IncFa='{}', IncFb='{}', IncFc='{' + ALL4 + '}', parts=2),
     ],
 }
 NS_SMALL = [0, 1, 2, 3, 4]
 BLOCKS = [1, 2, 3]
 BIG = [(7, 4), (65, 32), (96, 256)]            # (n, cuda block); n <= XW-4 so that no legal index reaches the overflow slot
-TLC_CAP = {"quick": 48000, "thorough": 160000}  # (source,target) records sent through TLC per run
+TLC_CAP = {"quick": 60000, "thorough": 120000}  # (source,target) records of the bulk run sent through TLC (all others: see check)
 SAMPLE_CTX = {"quick": 120, "thorough": 600}    # kernels that go through the real add_kernels on both CPU contexts
 NTEXT = {"quick": 400, "thorough": 4000}
 
 
 def consts(p, part=0, nparts=1):
-    return (f"MaxLen = {p['MaxLen']} Ns = {{0,1,2,3,4}} Blocks = {{1,2,3}}\n CtxSets = {p['CtxSets']}\n IncSets = {p['IncSets']}\n"
-            f" IncFiles = {p['IncFiles']}\n Kinds = {p['Kinds']}\n Part = {part} NParts = {nparts}\n")
+    return (f"MaxLen = {p['MaxLen']} Ns = {{0,1,2,3,4}} Blocks = {{1,2,3}}\n CtxSets = {p['CtxSets']}\n IncFa = {p['IncFa']}\n"
+            f" IncFb = {p['IncFb']}\n IncFc = {p['IncFc']}\n Kinds = {p['Kinds']}\n Part = {part} NParts = {nparts}\n")
 
 
 # ----------------------------------------------------------------------------- TLC: model level + export
@@ -84,7 +87,8 @@ def model_check(run, prof, workers):
     return res
 
 
-def export_part(prof, part):
+def export_part(prof, part, outdir):
+    """-> (path of a file with one exported source per line (the raw TLC output lines), number of lines, tlc result)"""
     wd = C.scratch("c16gen")
     cfg = "SPECIFICATION GSpec\nCONSTANTS " + consts(prof, part, prof["parts"]) + "CHECK_DEADLOCK FALSE\n"
     open(os.path.join(wd, "gen.cfg"), "w").write(cfg)
@@ -92,8 +96,15 @@ def export_part(prof, part):
     shutil.rmtree(wd, ignore_errors=True)
     if res["rc"] != 0 or res["errors"]:
         raise C.MachineryError(f"XoSpecializeGen {prof['tag']}/{part} failed:\n" + res["out"][-2000:])
-    recs = [json.loads(json.loads(ln)) for ln in res["out"].splitlines() if ln.startswith('"{')]
-    return recs, res
+    path = os.path.join(outdir, f"exp_{prof['tag']}_{part}.txt")
+    n = 0
+    with open(path, "w") as f:
+        for ln in res["out"].splitlines():
+            if ln.startswith('"{'):
+                f.write(ln + "\n")
+                n += 1
+    res["out"] = ""
+    return path, n, res
 
 
 # ----------------------------------------------------------------------------- rendering abstract sources to C
@@ -191,6 +202,7 @@ MACROS = f"""#define XW {XW}
 #define XV_V xv_unused
 #define XV_LIM n
 """
+MACROS_CL = MACROS.replace("__sync_fetch_and_add(&(q)[(s)*XW + XSLOT(i)], 1)", "atomic_inc(&(q)[(s)*XW + XSLOT(i)])")
 SIM = {
     "cpu_serial": "",
     "cpu_openmp": "",
@@ -399,12 +411,12 @@ def build_and_run(wd, t, kernels, geo, driver_o):
     open(os.path.join(wd, f"cfg_{t}.txt"), "w").write("".join(f"{g[0]} {g[1]} {g[2]}\n" for _, _, g in cfgs))
     notbuilt, errors = set(), {}
     alive = list(range(len(kernels)))
-    for attempt in range(6):
+    def tu(macros, sim, tail=True):
         head = headers_for(t)
         if t in ("opencl", "cuda"):
             from xobjects.specialize_source import specialize_source
             head = specialize_source(head, specialize_for=t) + "\ntypedef int64_t xv_probe64; typedef uint8_t xv_probe8;\n"
-        parts = [head, MACROS, SIM[t]]
+        parts = [head, macros, sim]
         line = 1 + sum(p.count("\n") + 1 for p in parts)
         spans = []
         for i in alive:
@@ -413,29 +425,49 @@ def build_and_run(wd, t, kernels, geo, driver_o):
             spans.append((line, line + nl, i))
             parts.append(txt)
             line += nl
-        parts.append("struct xv_kt { void (*f)(const int, int*); int ns; };")
-        parts.append("struct xv_kt xv_KT[] = {" + ",".join(f"{{{kernels[i][0]},{kernels[i][2]}}}" for i in alive) + ",{0,0}};")
-        parts.append(f"int xv_NK = {len(alive)};")
-        parts.append("void xv_launch(int k, int n, int b, int geo, int* xlog){ " + LAUNCH[t] + " }")
-        src = os.path.join(wd, f"tu_{t}.c")
-        open(src, "w").write("\n".join(parts) + "\n")
-        flags = ["-std=c99", "-O1", "-w"] + (["-fopenmp"] if t == "cpu_openmp" else [])
-        rc, out = _cc(["gcc", *flags, "-c", src, "-o", src[:-2] + ".o"], wd)
-        if rc == 0:
-            break
+        if tail:
+            parts.append("struct xv_kt { void (*f)(const int, int*); int ns; };")
+            parts.append("struct xv_kt xv_KT[] = {" + ",".join(f"{{{kernels[i][0]},{kernels[i][2]}}}" for i in alive) + ",{0,0}};")
+            parts.append(f"int xv_NK = {len(alive)};")
+            parts.append("void xv_launch(int k, int n, int b, int geo, int* xlog){ " + LAUNCH[t] + " }")
+        return "\n".join(parts) + "\n", spans
+
+    def blame(out, fname, spans):
         bad = set()
-        for m in re.finditer(r"tu_\w+\.c:(\d+):\d+: error", out):
+        for m in re.finditer(re.escape(fname) + r":(\d+):\d+: error", out):
             ln = int(m.group(1))
             for a, b_, i in spans:
                 if a <= ln < b_:
                     bad.add(i)
                     errors.setdefault(i, out[m.start():m.start() + 300])
+        return bad
+
+    for attempt in range(6):
+        text, spans = tu(MACROS, SIM[t])
+        src = os.path.join(wd, f"tu_{t}.c")
+        open(src, "w").write(text)
+        flags = ["-std=c99", "-O1", "-w"] + (["-fopenmp"] if t == "cpu_openmp" else [])
+        rc, out = _cc(["gcc", *flags, "-c", src, "-o", src[:-2] + ".o"], wd)
+        if rc == 0:
+            break
+        bad = blame(out, f"tu_{t}.c", spans)
         if not bad:
             raise C.MachineryError(f"host compiler failed outside generated kernels ({t}):\n" + out[:2000])
         notbuilt |= bad
         alive = [i for i in alive if i not in bad]
     else:
         raise C.MachineryError(f"could not isolate failing kernels ({t})")
+    if t == "opencl" and _WORK.get("clang_cl"):
+        # the same expansions through a real OpenCL C front end (the standard the context builds with), keywords NOT defined away
+        text, spans = tu(MACROS_CL, "", tail=False)
+        clsrc = os.path.join(wd, "tu_opencl.cl")
+        open(clsrc, "w").write(text)
+        rc, out = _cc(["clang", "-x", "cl", "-cl-std=CL2.0", "-Xclang", "-finclude-default-header", "-fsyntax-only", "-w", clsrc], wd)
+        if rc != 0:
+            bad = blame(out, "tu_opencl.cl", spans)
+            if not bad:
+                raise C.MachineryError("OpenCL front end failed outside generated kernels:\n" + out[:2000])
+            notbuilt |= bad
     exe = os.path.join(wd, f"tu_{t}")
     rc, out = _cc(["gcc", src[:-2] + ".o", driver_o, "-o", exe] + (["-fopenmp"] if t == "cpu_openmp" else []), wd)
     if rc != 0:
@@ -462,18 +494,13 @@ def expected_runs(cls, t, n):
 _WORK = {}
 
 
-def process_chunk(job):
-    """one chunk of exported sources -> per (source,target) observation records + drift counters"""
-    ci, recs = job
-    geo, root, probe_fun = _WORK["geo"], _WORK["root"], _WORK["probe_fun"]
+def observe_sources(recs, ci, root, geo, probe_fun, driver_o):
+    """render, rewrite with the REAL specialize_source, classify, compile, execute -> (observations per (source,target), drift)"""
     from xobjects.specialize_source import specialize_source
     wd = os.path.join(root, f"chunk{ci}")
     os.makedirs(wd, exist_ok=True)
     per_t = {t: [] for t in TARGETS}
-    meta = []
-    drift = collections.Counter()
-    drift_ex = {}
-    outrecs = []
+    meta, drift, drift_ex, outrecs = [], collections.Counter(), {}, []
     for k, rec in enumerate(recs):
         kname = f"k{k}"
         text, sid, folder = render(rec, kname, variant=k + ci)
@@ -491,14 +518,13 @@ def process_chunk(job):
                 cls = next((f"{a.get('o')}->{b.get('o')}" for a, b in zip(rec["tg"][t]["rw"], got) if a != b), "length")
                 drift[f"{t}:{cls}"] += 1
                 drift_ex.setdefault(f"{t}:{cls}", dict(src=rec["src"], model=rec["tg"][t]["rw"], real=got))
+    stub = "void {0}(const int n, int* xlog){{}}"
     for t in TARGETS:
-        stub = "void {0}(const int n, int* xlog){{}}"
         runs, notbuilt, errors, cfgs = build_and_run(wd, t, [(a, sp if sp is not None else stub.format(a), ns) for (a, sp, ns, _) in per_t[t]],
-                                                     geo, _WORK["driver_o"])
+                                                     geo, driver_o)
         for k, rec in enumerate(recs):
             text, sid, inv = meta[k]
             kname, sp, ns, exc = per_t[t][k]
-            ok = sp
             built = 1 if (sp is not None and k not in notbuilt) else 0
             cfgout, conform = [], bool(built)
             clsmap = dict((a, b) for a, b in rec["tg"][t]["cls"])
@@ -515,19 +541,70 @@ def process_chunk(job):
                             conform = False
                     if any(a not in clsmap for a in byid):
                         conform = False
-            q = qualifiers(sp, kname, probe_fun[t]) if ok is not None else dict(kern=[], mem=[], restr=[], fun=[])
-            if q != rec["tg"][t]["q"] and ok is not None:
-                if any(sorted(q[x]) != sorted(rec["tg"][t]["q"][x]) for x in q):
-                    drift[f"{t}:qualifiers"] += 1
-                    drift_ex.setdefault(f"{t}:qualifiers", dict(model=rec["tg"][t]["q"], real=q))
-            outrecs.append(dict(src=rec["src"], t=t, built=built, q=q, cfg=cfgout, conform=conform,
+            q = qualifiers(sp, kname, probe_fun[t]) if sp is not None else dict(kern=[], mem=[], restr=[], fun=[])
+            if sp is not None and any(sorted(q[x]) != sorted(rec["tg"][t]["q"][x]) for x in q):
+                drift[f"{t}:qualifiers"] += 1
+                drift_ex.setdefault(f"{t}:qualifiers", dict(model=rec["tg"][t]["q"], real=q))
+            outrecs.append(dict(src=rec["src"], t=t, built=built, q=q, cfg=cfgout, conform=conform, k=k,
                                 info=dict(text=text, specialised=sp, error=(exc or errors.get(k, ""))[:400])))
     shutil.rmtree(wd, ignore_errors=True)
-    return outrecs, dict(drift), drift_ex
+    return outrecs, drift, drift_ex
+
+
+def judge(sel, recs_by_k):
+    """TLC verdicts for observation records -> (violations [(key, desc, replay, srclen)], clause counter, tlc totals, mismatches)"""
+    rver, _, tot = validate(sel, [], nbatch=1)
+    viol, clauses, mism = [], collections.Counter(), 0
+    for r, v in zip(sel, rver):
+        clauses[v[0] or "ok"] += 1
+        if r["conform"] is True and v[0] and not v[0].startswith("qualifier"):
+            raise C.MachineryError(f"pre-comparison accepted a record that TLC rejects ({v}); harness out of sync with the spec")
+        if r["conform"] is False and not v[0]:
+            mism += 1
+        if v[0]:
+            key = classify_key(r, v)
+            desc = (f"target {r['t']}: {v[0]} at n={v[1]} block={v[2]} statement={v[3]}; source={json.dumps(r['src'])}; "
+                    f"{r['info']['error']}")
+            full = recs_by_k(r)
+            if full is not None:
+                full = dict(full, tg={t: dict(cls=x["cls"], q=x["q"], rw=x["rw"]) for t, x in full["tg"].items()})
+            viol.append((key, desc, dict(kind="kernel", rec=full, target=r["t"], clause=v[0], n=v[1], block=v[2], statement=v[3],
+                                         source_text=r["info"]["text"], specialised=r["info"]["specialised"],
+                                         observed=[c for c in r["cfg"] if c[0] == v[1]][:3]), len(r["src"])))
+    return viol, clauses, tot, mism
+
+
+def process_chunk(job):
+    """worker: one file of exported sources -> executed, judged by TLC, summarised (nothing big is returned)"""
+    ci, path, frac, seed = job
+    recs = [json.loads(json.loads(ln)) for ln in open(path)]
+    obs, drift, drift_ex = observe_sources(recs, ci, _WORK["root"], _WORK["geo"], _WORK["probe_fun"], _WORK["driver_o"])
+    rng = random.Random(seed * 7919 + ci)
+    keep = set(k for k in range(len(recs)) if rng.random() < frac)
+    sel = [o for o in obs if not o["conform"] or o["k"] in keep]
+    viol, clauses, tot, mism = judge(sel, lambda r: recs[r["k"]])
+    # keep the smallest witness per key only; counts are kept
+    best, counts = {}, collections.Counter()
+    for key, desc, rep, n in viol:
+        counts[key] += 1
+        if key not in best or n < best[key][2]:
+            best[key] = (desc, rep, n)
+    stats = collections.Counter()
+    for r in recs:
+        for ln in r["src"]:
+            stats["kind:" + ln["k"]] += 1
+        for t in TARGETS:
+            for _, cl in r["tg"][t]["cls"]:
+                stats[f"class:{t}:{cl}"] += 1
+    sample = next((dict(target=o["t"], source_text=o["info"]["text"], specialised=o["info"]["specialised"], launches=o["cfg"][3:6])
+                   for o in obs if o["t"] == "cuda" and any(r[1] >= 0 for c in o["cfg"] for r in c[2])), None)
+    return dict(pairs=len(obs), launches=sum(len(o["cfg"]) for o in obs), validated=len(sel),
+                deviants=sum(1 for o in obs if not o["conform"]), drift=dict(drift), drift_ex=dict(list(drift_ex.items())[:2]),
+                clauses=dict(clauses), tlc=tot, mism=mism, best=best, counts=dict(counts), stats=dict(stats), sample=sample)
 
 
 # ----------------------------------------------------------------------------- TLC trace validation
-TRACE_CFG = ('SPECIFICATION TraceSpec\nCONSTANTS MaxLen = 0 Ns = {} Blocks = {} CtxSets = {} IncSets = {} IncFiles = {} Kinds = {} '
+TRACE_CFG = ('SPECIFICATION TraceSpec\nCONSTANTS MaxLen = 0 Ns = {} Blocks = {} CtxSets = {} IncFa = {} IncFb = {} IncFc = {} Kinds = {} '
              'Part = 0 NParts = 1\nCHECK_DEADLOCK FALSE\n')
 
 
@@ -762,43 +839,7 @@ def check(pid, argv=None):
     rng = random.Random(run.seed * 1000003 + 16)
     t_all = time.time()
 
-    # ---- sources
-    if run.replay:
-        rp = json.load(open(run.replay))["replay"]
-        if rp.get("kind") == "text":
-            recs_src, texts_only = [], rp
-        else:
-            recs_src, texts_only = [rp["rec"]], None
-    else:
-        texts_only = None
-        profs = PROFILES[tier]
-        t1 = time.time()
-        jobs = [(p, i) for p in profs for i in range(p["parts"])]
-        with ThreadPoolExecutor(max_workers=min(len(jobs) + len(profs), C.NCPU)) as ex:
-            mcf = [ex.submit(model_check, run, p, max(2, C.NCPU // 4)) for p in profs]
-            gens = list(ex.map(lambda j: export_part(*j), jobs))
-            mcs = [f.result() for f in mcf]
-        mc_notes = {}
-        for p, res in zip(profs, mcs):
-            run.add_tlc(res)
-            mc_notes[p["tag"]] = dict(states=res["distinct"], wall=round(res["wall"], 1))
-        seen, recs_src = set(), []
-        per_prof = collections.Counter()
-        for (p, i), (rs, res) in zip(jobs, gens):
-            run.cov["transitions"] += res["generated"]
-            for r in rs:
-                key = json.dumps(r["src"], sort_keys=True)
-                if key not in seen:
-                    seen.add(key)
-                    recs_src.append(r)
-                    per_prof[p["tag"]] += 1
-        run.notes["model_checking"] = mc_notes
-        run.notes["sources_exported"] = dict(per_prof)
-        run.notes["t_tlc_model_and_export"] = round(time.time() - t1, 1)
-        if not recs_src:
-            raise C.MachineryError("no sources exported")
-
-    # ---- geometry from the real kernel classes
+    # ---- geometry from the real kernel classes, harness pieces
     geo = real_geometry(run)
     run.notes["geometry"] = {t: {f"n={n},block={b}": list(g) for (n, b), g in list(geo[t].items())[:4] + list(geo[t].items())[-3:]}
                              for t in ("cuda", "opencl")}
@@ -808,111 +849,167 @@ def check(pid, argv=None):
     rc, out = _cc(["gcc", "-std=c99", "-O1", "-w", "-c", "driver.c", "-o", "driver.o"], root)
     if rc != 0:
         raise C.MachineryError("driver does not compile:\n" + out[:2000])
-    _WORK.update(geo=geo, root=root, probe_fun=probe_fun, driver_o=os.path.join(root, "driver.o"))
+    open(os.path.join(root, "probe.cl"), "w").write("__kernel void k(const int n, __global int* x){ atomic_inc(&x[get_global_id(0)]); }\n")
+    rc, out = _cc(["clang", "-x", "cl", "-cl-std=CL2.0", "-Xclang", "-finclude-default-header", "-fsyntax-only", "probe.cl"], root)
+    run.notes["opencl_front_end"] = "clang -x cl -cl-std=CL2.0 (syntax/semantic check of every opencl expansion)" if rc == 0 else "not available"
+    _WORK.update(geo=geo, root=root, probe_fun=probe_fun, driver_o=os.path.join(root, "driver.o"), clang_cl=(rc == 0))
+    violations = []            # (key, desc, replay, srclen, count)
+    clause_count = collections.Counter()
 
-    # ---- render, rewrite with the real code, compile, execute
-    t1 = time.time()
-    obs, drift, drift_ex = [], collections.Counter(), {}
-    if recs_src:
-        chunks = [(i // CHUNK, recs_src[i:i + CHUNK]) for i in range(0, len(recs_src), CHUNK)]
-        if len(chunks) == 1:
-            results = [process_chunk(chunks[0])]
-        else:
-            with ProcessPoolExecutor(max_workers=min(C.NCPU, len(chunks))) as ex:
-                results = list(ex.map(process_chunk, chunks))
-        for o, d, dx in results:
-            obs += o
-            drift.update(d)
-            for k_, v_ in dx.items():
-                drift_ex.setdefault(k_, v_)
-    run.notes["t_render_rewrite_compile_execute"] = round(time.time() - t1, 1)
-    run.notes["kernel_target_pairs_executed"] = len(obs)
-    run.notes["launches_recorded"] = sum(len(o["cfg"]) for o in obs)
-    run.notes["model_drift"] = dict(drift)
-    if drift_ex:
-        run.notes["model_drift_examples"] = {k_: v_ for k_, v_ in list(drift_ex.items())[:4]}
-
-    # ---- sample through the real CPU contexts
-    t1 = time.time()
-    if recs_src:
-        smp = recs_src if run.replay else rng.sample(recs_src, min(SAMPLE_CTX[tier], len(recs_src)))
-        cobs = context_sample(run, smp, root, NS_SMALL + [7, 65])
-        run.notes["real_context_kernel_calls"] = sum(len(o["cfg"]) for o in cobs)
-        obs_ctx = cobs
-    else:
-        obs_ctx = []
-    run.notes["t_real_contexts"] = round(time.time() - t1, 1)
-
-    # ---- unannotated text
-    t1 = time.time()
     if run.replay:
-        texts = run_text_cases([[tuple(x) for x in texts_only["case"]["lines"]]], root, [texts_only["case"].get("variant", 0)]) if texts_only else []
-        texts = [x for x in texts if x["t"] == texts_only["case"]["t"]] if texts_only else []
+        rp = json.load(open(run.replay))["replay"]
+        texts, ctx_recs = [], []
+        if rp.get("kind") == "text":
+            c = rp["case"]
+            texts = [x for x in run_text_cases([[tuple(x) for x in c["lines"]]], root, [c.get("variant", 0)]) if x["t"] == c["t"]]
+        elif rp.get("kind") == "kernel":
+            obs, _, _ = observe_sources([rp["rec"]], 0, root, geo, probe_fun, _WORK["driver_o"])
+            viol, clauses, tot, _ = judge(obs, lambda r: rp["rec"])
+            clause_count.update(clauses)
+            run.cov["states"] += tot["distinct"]
+            run.cov["transitions"] += tot["generated"]
+            run.cov["traces_validated_against_impl"] += len(obs)
+            violations += [(k_, d, r, n, 1) for k_, d, r, n in viol]
+            ctx_recs = [rp["rec"]]
+        elif rp.get("kind") == "context":
+            ctx_recs = rp["recs"]
     else:
+        # ---- TLC: model-level check of every profile, export of every source
+        profs = PROFILES[tier]
+        t1 = time.time()
+        jobs = [(p, i) for p in profs for i in range(p["parts"])]
+        with ThreadPoolExecutor(max_workers=min(len(jobs) + len(profs), C.NCPU)) as ex:
+            mcf = [ex.submit(model_check, run, p, max(2, C.NCPU // 4)) for p in profs]
+            gens = list(ex.map(lambda j: export_part(j[0], j[1], root), jobs))
+            mcs = [f.result() for f in mcf]
+        run.notes["model_checking"] = {}
+        for p, res in zip(profs, mcs):
+            run.add_tlc(res)
+            run.notes["model_checking"][p["tag"]] = dict(states=res["distinct"], wall=round(res["wall"], 1))
+        # distinct sources -> chunk files (an exported line depends on the source only, so equal sources give equal lines)
+        seen, per_prof, nsrc, chunk_paths, cur = set(), collections.Counter(), 0, [], None
+        reservoir = []
+        for (p, i), (path, n, res) in zip(jobs, gens):
+            run.cov["transitions"] += res["generated"]
+            for ln in open(path):
+                h = hash(ln)
+                if h in seen:
+                    continue
+                seen.add(h)
+                per_prof[p["tag"]] += 1
+                if nsrc % CHUNK == 0:
+                    if cur:
+                        cur.close()
+                    chunk_paths.append(os.path.join(root, f"chunk_{len(chunk_paths)}.txt"))
+                    cur = open(chunk_paths[-1], "w")
+                cur.write(ln)
+                nsrc += 1
+                if len(reservoir) < SAMPLE_CTX[tier]:
+                    reservoir.append(ln)
+                elif rng.random() < SAMPLE_CTX[tier] / nsrc:
+                    reservoir[rng.randrange(SAMPLE_CTX[tier])] = ln
+            os.remove(path)
+        if cur:
+            cur.close()
+        del seen
+        run.notes["sources_exported"] = dict(per_prof)
+        run.notes["t_tlc_model_and_export"] = round(time.time() - t1, 1)
+        if not nsrc:
+            raise C.MachineryError("no sources exported")
+
+        # ---- render, rewrite with the real code, compile, execute, TLC-validate: streamed through worker processes
+        t1 = time.time()
+        frac = min(1.0, TLC_CAP[tier] / (4.0 * nsrc))
+        cjobs = [(ci, pth, frac, run.seed) for ci, pth in enumerate(chunk_paths)]
+        agg = collections.Counter()
+        drift, drift_ex, stats, sample_obs = collections.Counter(), {}, collections.Counter(), None
+        best, counts = {}, collections.Counter()
+        with ProcessPoolExecutor(max_workers=min(C.NCPU, len(cjobs))) as ex:
+            for res in ex.map(process_chunk, cjobs):
+                for k_ in ("pairs", "launches", "validated", "deviants", "mism"):
+                    agg[k_] += res[k_]
+                drift.update(res["drift"])
+                stats.update(res["stats"])
+                clause_count.update(res["clauses"])
+                run.cov["states"] += res["tlc"]["distinct"]
+                run.cov["transitions"] += res["tlc"]["generated"]
+                for k_, v_ in res["drift_ex"].items():
+                    drift_ex.setdefault(k_, v_)
+                for key, (desc, rep, n) in res["best"].items():
+                    counts[key] += res["counts"][key]
+                    if key not in best or n < best[key][2]:
+                        best[key] = (desc, rep, n)
+                sample_obs = sample_obs or res["sample"]
+        violations += [(key, d, r, n, counts[key]) for key, (d, r, n) in best.items()]
+        run.notes["t_render_rewrite_compile_execute_validate"] = round(time.time() - t1, 1)
+        run.notes["kernel_target_pairs_executed"] = agg["pairs"]
+        run.notes["launches_recorded"] = agg["launches"]
+        run.notes["records_differing_from_exported_expectation"] = agg["deviants"]
+        run.notes["records_validated_by_tlc"] = agg["validated"]
+        run.notes["tlc_validated_fraction_of_conforming_sources"] = round(frac, 3)
+        run.notes["precompare_rejected_but_tlc_accepted"] = agg["mism"]
+        run.notes["model_drift"] = dict(drift)
+        if drift_ex:
+            run.notes["model_drift_examples"] = {k_: v_ for k_, v_ in list(drift_ex.items())[:4]}
+        run.cov["traces_validated_against_impl"] += agg["pairs"]
+        run.cov["exhaustive"] = frac >= 1.0
+        # vacuity: every class of expectation on every target, every line kind of the profiles
+        run.notes["statement_classes_exercised"] = {k_[6:]: v_ for k_, v_ in stats.items() if k_.startswith("class:")}
+        run.notes["line_kinds_enumerated"] = {k_[5:]: v_ for k_, v_ in stats.items() if k_.startswith("kind:")}
+        for t in TARGETS:
+            for cl in ("blk", "off", "free"):
+                if not stats.get(f"class:{t}:{cl}"):
+                    raise C.MachineryError(f"vacuous run: no statement of class {cl} on {t}")
+        for k_ in ("plain", "mem", "fun", "vec", "end", "only", "inc"):
+            if not stats.get("kind:" + k_):
+                raise C.MachineryError(f"vacuous run: no line of kind {k_}")
+        ctx_recs = [json.loads(json.loads(ln)) for ln in reservoir]
+        for r in ctx_recs[:3]:
+            run.sample(dict(src=r["src"], cuda_classes=r["tg"]["cuda"]["cls"]))
+        if sample_obs:
+            run.sample(sample_obs)
         texts = run_text_cases(text_cases(rng, NTEXT[tier], root), root)
         info_probes(run, root)
+
+    # ---- sample through the real CPU contexts (whole translation unit, real add_kernels, real kernel call)
+    t1 = time.time()
+    obs_ctx = context_sample(run, ctx_recs, root, NS_SMALL + [7, 65]) if ctx_recs else []
+    run.notes["real_context_kernel_calls"] = sum(len(o["cfg"]) for o in obs_ctx)
+    run.notes["t_real_contexts"] = round(time.time() - t1, 1)
     run.notes["text_cases"] = len(texts)
 
-    # ---- TLC validates the recorded executions against the contract
-    cap = TLC_CAP[tier]
-    dev = [o for o in obs if not o["conform"]]
-    okk = [o for o in obs if o["conform"]]
-    if len(obs) > cap:
-        rng.shuffle(okk)
-        okk = okk[:max(0, cap - len(dev))]
-    sel = dev + okk + obs_ctx
-    run.notes["records_differing_from_exported_expectation"] = len(dev)
-    run.notes["records_validated_by_tlc"] = len(sel)
+    # ---- TLC validates context-sample executions and the text cases
     t1 = time.time()
-    rver, tver, tot = validate(sel, [dict(inp=x["inp"], out=x["out"]) for x in texts])
-    run.notes["t_tlc_trace_validation"] = round(time.time() - t1, 1)
+    rver, tver, tot = validate(obs_ctx, [dict(inp=x["inp"], out=x["out"]) for x in texts])
+    run.notes["t_tlc_validation_contexts_texts"] = round(time.time() - t1, 1)
     run.cov["states"] += tot["distinct"]
     run.cov["transitions"] += tot["generated"]
-    run.cov["traces_validated_against_impl"] = len(obs) + len(obs_ctx) + len(texts)
-    clause_count = collections.Counter()
-    for r, v in zip(sel, rver):
-        clause_count[v[0] or "ok"] += 1
-    for r, v in sorted(zip(sel, rver), key=lambda rv: (len(rv[0]["src"]), json.dumps(rv[0]["src"]))):   # smallest witness first
+    run.cov["traces_validated_against_impl"] += len(obs_ctx) + len(texts)
+    byk = {json.dumps(r["src"], sort_keys=True): r for r in ctx_recs}
+    for r, v in zip(obs_ctx, rver):
+        clause_count["ctx:" + (v[0] or "ok")] += 1
         if v[0]:
-            key = classify_key(r, v)
-            desc = (f"target {r['t']}: {v[0]} at n={v[1]} block={v[2]} statement={v[3]}; source={json.dumps(r['src'])}; "
-                    f"{r['info']['error']}")
-            full = next((x for x in recs_src if x["src"] == r["src"]), None)
-            run.report(key, desc, dict(kind="kernel", rec=full, target=r["t"], clause=v[0], n=v[1], block=v[2], statement=v[3],
-                                       source_text=r["info"]["text"], specialised=r["info"]["specialised"],
-                                       observed=[c for c in r["cfg"] if c[0] == v[1]][:3]))
-    # a conforming pre-comparison that TLC rejects (or the reverse) means the harness and the spec disagree: machinery
-    for r, v in zip(sel, rver):
-        if r["conform"] is True and v[0] and not v[0].startswith("qualifier"):
-            raise C.MachineryError(f"pre-comparison accepted a record that TLC rejects ({v}); harness out of sync with the spec")
-    run.notes["precompare_rejected_but_tlc_accepted"] = sum(1 for r, v in zip(sel, rver) if r["conform"] is False and not v[0])
+            full = byk.get(json.dumps(r["src"], sort_keys=True))
+            violations.append((classify_key(r, v) + ":real-context",
+                               f"{r['info']['text']} target {r['t']}: {v[0]} at n={v[1]} statement={v[3]}; source={json.dumps(r['src'])}",
+                               dict(kind="kernel", rec=full, target=r["t"], clause=v[0], n=v[1], statement=v[3], via="ctx.add_kernels"),
+                               len(r["src"]), 1))
     for x, v in zip(texts, tver):
         clause_count["text:" + (v or "ok")] += 1
         if v:
             shape = "with-annotations" if any(a for a, _ in x["inp"]) else "plain-only"
-            run.report(f"{v}:{shape}", f"target {x['t']}: unannotated text changed; source lines={[l[1] for l in x['lines']]!r} "
-                       f"produced={x['got']!r}", dict(kind="text", case=x))
+            violations.append((f"{v}:{shape}", f"target {x['t']}: unannotated text changed; source lines={[l[1] for l in x['lines']]!r} "
+                               f"produced={x['got']!r}", dict(kind="text", case=x), len(x["lines"]), 1))
     run.notes["tlc_verdicts"] = dict(clause_count)
 
-    # ---- vacuity: every class of expectation was really exercised
-    if not run.replay:
-        seen_cls = collections.Counter()
-        for r in recs_src:
-            for t in TARGETS:
-                for _, cl in r["tg"][t]["cls"]:
-                    seen_cls[f"{t}:{cl}"] += 1
-        run.notes["statement_classes_exercised"] = dict(seen_cls)
-        for t in TARGETS:
-            for cl in ("blk", "off", "free"):
-                if not seen_cls.get(f"{t}:{cl}"):
-                    raise C.MachineryError(f"vacuous run: no statement of class {cl} on {t}")
-        kinds = collections.Counter(l["k"] for r in recs_src for l in r["src"])
-        run.notes["line_kinds_enumerated"] = dict(kinds)
-        for r in rng.sample(recs_src, min(4, len(recs_src))):
-            run.sample(dict(src=r["src"], cuda_classes=r["tg"]["cuda"]["cls"]))
-        for o in obs[:1]:
-            run.sample(dict(target=o["t"], source_text=o["info"]["text"], specialised=o["info"]["specialised"], launches=o["cfg"][:4]))
-    run.cov["exhaustive"] = (len(sel) >= len(obs))
+    # ---- report: smallest witness per failure class first, counts kept
+    done = set()
+    for key, desc, rep, n, cnt in sorted(violations, key=lambda v: (v[3], v[0])):
+        first = key not in done
+        done.add(key)
+        st = run.report(key, desc, rep if first else None)
+        for _ in range(min(cnt - 1, 20000)):
+            run.report(key, desc, None)
     run.notes["t_total"] = round(time.time() - t_all, 1)
     os.chdir(C.VERIF)
     run.finish()
